@@ -14,9 +14,9 @@ P2 selection: ComputeViolations skips exactly the unused constraints and classif
    original variables in both modes and for auxiliary ones in the realistic mode only;
 H1 the check is run from the postsolve of every solution (ValuePresolver::PostsolveSolution).
 """
-from ..cfg import Facts, kids, strip, walk, cv, render, call_args, call_object, switch_sections
+from ..cfg import MiniInt, eval_cases, norm_facts, xrender, expand_locals, reach_calls, Facts, kids, strip, walk, cv, render, call_args, call_object, switch_sections
 from ..cfg import short_loc as _short_loc
-from ..facts import export, export_many, AnalysisBroken
+from ..facts import export_closure, export, export_many, AnalysisBroken
 
 LEVEL = "other"
 TECHNIQUE = ("static analysis: resolved-callee dispatch table over all constraint keeper instantiations, "
@@ -44,6 +44,7 @@ def short_loc(l):
 
 
 import re as _re
+import re
 
 
 def nt(t):
@@ -69,7 +70,7 @@ def run(rep, ctx):
     fn = [r"mp::ConstraintKeeper::(ComputeValue|ComputeViolations)", r"mp::ComputeValue", r"mp::ComputeViolation",
           r"mp::[A-Za-z_0-9]+::ComputeViolation", r"mp::Violation::Check", r"mp::SolutionChecker::.*",
           r"mp::pre::ValuePresolver::PostsolveSolution", r"mp::ViolSummary::.*"]
-    d = export(U, fn=fn, enum=[r"mp::Context::CtxVal", r"mp::sol::Status"], repo=repo)
+    d = export_closure(depth=1, roots=r"^mp::(ConstraintKeeper::ComputeViolations|SolutionChecker::CheckVars|Violation::)", unit=U, fn=fn, enum=[r"mp::Context::CtxVal", r"mp::sol::Status"], repo=repo)
     cg = export(U, callgraph=True, repo=repo)["callgraph"]
     F = Facts([d])
     rep.note_units([U])
@@ -347,19 +348,45 @@ def run(rep, ctx):
         for nm in ("CTX_MIX", "CTX_POS", "CTX_NEG"):
             sec = secs2.get(ctx_vals[nm], [])
             ifs = [x for s in sec for x in walk(s) if x["k"] == "IfStmt"]
-            conds[nm] = render(kids(ifs[0])[0]).replace(" ", "") if ifs else None
-        g1.check(conds == {"CTX_MIX": "has_arg==ccon_valid", "CTX_POS": "has_arg<=ccon_valid", "CTX_NEG": "has_arg>=ccon_valid"}, "conditional|cases",
+            conds[nm] = xrender(f, kids(ifs[0])[0]).replace(" ", "") if ifs else None
+        FLAG, VALID = "x[GetResultVar()]>=0.5", "viol.viol_<=0"
+        g1.check(conds == {"CTX_MIX": FLAG + "==" + VALID, "CTX_POS": FLAG + "<=" + VALID, "CTX_NEG": FLAG + ">=" + VALID}, "conditional|cases",
                  short_loc(f.loc), "conditional constraints: MIX needs b <=> c, POS b => c, NEG c => b", str(conds))
         hv = {v["name"]: nt(render(kids(v)[0])) for v in f.walk() if v["k"] == "VarDecl" and kids(v)}
         g1.check(hv.get("ccon_valid") == "viol.viol_<=0" and hv.get("has_arg") == "x[GetResultVar()]>=0.5", "conditional|inputs", short_loc(f.loc),
                  "the comparison holds iff its violation is <= 0; the flag is true iff x[result] >= 0.5", str(hv))
     ck = one("mp::Violation::Check")
-    ifs = [n for n in ck.walk() if n["k"] == "IfStmt"]
-    c = nt(render(kids(ifs[0])[0])) if ifs else ""
-    cn = strip(kids(ifs[0])[0]) if ifs else None
-    shape = cn is not None and cn["k"] == "BinaryOperator" and cn.get("op") == "&&" and strip(kids(cn)[1])["k"] == "BinaryOperator" and strip(kids(cn)[1]).get("op") == "||"
-    g1.check(len(ifs) == 1 and shape and c == "viol_>epsabs&&0==fabs(valX_)||violRel=fabs(viol_/valX_)>epsrel", "tolerance-test", short_loc(ck.loc),
-             "violated iff viol > epsabs and (reference value is 0 or |viol/ref| > epsrel)", c)
+    def ck_atom(t, n):
+        t = t.replace("0.0", "0")
+        if t in ("viol_>epsabs", "epsabs<viol_"):
+            return "A"
+        if t in ("viol_<=epsabs", "epsabs>=viol_"):
+            return ("A", True)
+        if t in ("0==fabs(valX_)", "fabs(valX_)==0", "valX_==0", "0==valX_"):
+            return "Z"
+        if t in ("0!=fabs(valX_)", "fabs(valX_)!=0", "valX_!=0", "0!=valX_"):
+            return ("Z", True)
+        if re.match(r"^(violRel=)?fabs\(viol_/valX_\)>epsrel$", t) or t == "epsrel<fabs(viol_/valX_)":
+            return "R"
+        if re.match(r"^(violRel=)?fabs\(viol_/valX_\)<=epsrel$", t):
+            return ("R", True)
+        return None
+
+    def ck_ret(e, value_of):
+        if e is None:
+            raise AnalysisBroken("C07.G1: Violation::Check has a path without a return")
+        il = [x for x in walk(e) if x["k"] == "InitListExpr" or (x["k"] == "CXXConstructExpr" and "pair" in (x.get("callee") or ""))]
+        first = strip(kids(il[0])[0]) if il and kids(il[0]) else None
+        while first is not None and first["k"] == "MaterializeTemporaryExpr" and kids(first):
+            first = strip(kids(first)[0])
+        if first is None:
+            raise AnalysisBroken("C07.G1: Violation::Check does not return a {flag, value} pair")
+        return value_of(first)
+    tab = eval_cases(ck, ["A", "Z", "R"], ck_atom, ck_ret)
+    wrong = [k for k, v in tab.items() if v != (k[0] and (k[1] or k[2]))]
+    c = "cases (viol>epsabs, ref==0, |viol/ref|>epsrel) with a wrong verdict: %s" % wrong
+    g1.check(not wrong, "tolerance-test", short_loc(ck.loc),
+             "violated iff viol > epsabs and (reference value is 0 or |viol/ref| > epsrel) - 8 cases evaluated", c)
 
     # ---- P1 ---------------------------------------------------------------------------
     p1 = rep.rule("C07.P1", "PATH", "fail path: dedicated code raised and not swallowed; result is 'no report text'", floor=5)
@@ -418,34 +445,86 @@ def run(rep, ctx):
         calls_ = [c for c in f.walk() if c["k"] == "CXXMemberCallExpr" and c.get("callee", "").endswith("::ComputeViolation")]
         if len(calls_) != 1:
             continue
-        fa = nfacts(f, calls_[0])
-        conds = sorted((t, pol) for t, pol in fa if "__" not in t and "cons_.size()" not in t and not t.startswith("i"))
-        want = [("c_class&chk.check_mode()", True), ("cons_[i].IsUnused()", False)]
-        asg = {}
-        for n in f.walk():
-            if n["k"] in ("CompoundAssignOperator", "BinaryOperator") and n.get("op") in ("|=", "=") and render(kids(n)[0]) == "c_class":
-                g_ = nfacts(f, n)
-                own = [x for x in g_ if x[0] in ("cons_[i].IsBridged()", "cons_[i].GetDepth()", "c_class")]
-                asg[(n.get("op"), cv(kids(n)[1]))] = sorted(own)
-        want_asg = {("|=", 8): [("cons_[i].IsBridged()", False)], ("|=", 2): [("cons_[i].GetDepth()", False)], ("=", 4): [("c_class", False)]}
-        ok = conds == want and asg == want_asg
+        # shape-free: (1) the evaluation is guarded by `class & check_mode()` and `!IsUnused()`; (2) the class, computed
+        # inline or by a helper, is 8 for a solver-side constraint, |2 for depth 0, 4 if neither - evaluated for the 4 cases
+        fa = norm_facts(f, calls_[0], loop_conditions=False, all_locals=True)
+        sel = [t for t, pol in fa if pol and t.endswith("&chk.check_mode()")]
+        unused_ok = ("cons_[i].IsUnused()", False) in fa
+        problems = []
+        if len(sel) != 1 or not unused_ok:
+            problems.append("selection conditions %s" % [x for x in fa if "check_mode" in x[0] or "IsUnused" in x[0]])
+        cls_txt = sel[0][:-len("&chk.check_mode()")] if sel else None
+
+        def mk_atom(br, d0):
+            def atom(t, n, env):
+                if t.endswith(".IsBridged()"):
+                    return int(br)
+                if t.endswith(".GetDepth()"):
+                    return 0 if d0 else 1
+                return None
+            return atom
+        table = {}
+        ifsel = next((a for a in f.ancestors(calls_[0]) if a["k"] == "IfStmt" and "check_mode()" in render(kids(a)[0])), None)
+        for br in (False, True):
+            for d0 in (False, True):
+                mi = MiniInt(F, mk_atom(br, d0))
+                try:
+                    if ifsel is None:
+                        raise AnalysisBroken("no selection test")
+                    cnode = strip(kids(ifsel)[0])
+                    # the class operand of `class & check_mode()`
+                    opnd = kids(cnode)[0] if cnode["k"] == "BinaryOperator" and cnode.get("op") == "&" else None
+                    if opnd is None:
+                        raise AnalysisBroken("selection test is not `class & mode`")
+                    env = {}
+                    o0 = strip(opnd)
+                    if o0["k"] == "DeclRefExpr":
+                        # run the statements of the enclosing block up to the selection test
+                        st_, blk = ifsel, f.parent.get(ifsel["i"])
+                        while blk is not None and blk["k"] != "CompoundStmt":
+                            st_, blk = blk, f.parent.get(blk["i"])
+                        mi.run(kids(blk), env, 0, stop=lambda s_: s_ is ifsel or s_.get("i") == ifsel["i"])
+                    table[(br, d0)] = mi.expr(opnd, env)
+                except AnalysisBroken as e:
+                    problems.append(str(e))
+                    break
+        want_tab = {(False, False): 8, (False, True): 10, (True, True): 2, (True, False): 4}
+        if not problems and table != want_tab:
+            problems.append("class by (bridged, depth 0): %s, expected %s" % (table, want_tab))
+        ok = not problems
+        conds, asg = problems[:2], table
         nk += 1
         if not ok or nk == 1:
             p2.check(ok, "select|%s" % f.full.split("ConstraintKeeper<")[-1].split(">::ComputeViolations")[0].split(", ", 2)[-1][-60:], short_loc(f.loc),
                      "unused skipped; solver-side 8, top-level 2, intermediate 4; evaluated iff the class is in the mode",
-                     "selection conditions %s, class assignments %s" % (conds, asg))
+                     "selection: %s, class table %s" % (conds, asg))
     rep.extra["keepers_selection_checked"] = nk
     for f in keepers[:1]:
-        idx = [n for n in f.walk() if n["k"] == "VarDecl" and n.get("name") == "index"]
-        t = render(kids(idx[0])[0]).replace(" ", "") if idx else ""
-        p2.check(t.replace("(", "").replace(")", "") == "c_class&2?0:c_class&8?2:1", "report-slot", short_loc(f.loc), "reported as original (0) if top-level, else solver-side (2), else intermediate (1)", t)
+        # the summary slot as a function of the class value (inline ternary or helper): 2, 10 -> 0; 8 -> 2; 4 -> 1
+        cnt_ = [c for c in f.walk() if c["k"] == "CXXMemberCallExpr" and (c.get("callee") or "").endswith("::CountViol")]
+        slot = {}
+        t = ""
+        try:
+            sub = next(x for x in walk(call_object(cnt_[0])) if x["k"] in ("CXXOperatorCallExpr", "ArraySubscriptExpr")) if cnt_ else None
+            ixe = strip(call_args(sub)[-1] if sub["k"] == "CXXOperatorCallExpr" else kids(sub)[1])
+            ixe = expand_locals(f, ixe, 0, True)
+            t = render(ixe).replace(" ", "")
+            fa_ = norm_facts(f, cnt_[0], loop_conditions=False, all_locals=True)
+            cls_ = [t_[:-len("&chk.check_mode()")] for t_, pol_ in fa_ if pol_ and t_.endswith("&chk.check_mode()")]
+            for cval in (2, 10, 8, 4):
+                mi = MiniInt(F, lambda t_, n_, env_, cval=cval: cval if cls_ and t_ == cls_[0] else None)
+                slot[cval] = mi.expr(ixe, {})
+        except (AnalysisBroken, StopIteration, KeyError, IndexError, TypeError) as e:
+            t = "%s (%s)" % (t, e)
+        p2.check(slot == {2: 0, 10: 0, 8: 2, 4: 1}, "report-slot", short_loc(f.loc), "reported as original (0) if top-level, else solver-side (2), else intermediate (1)", "%s -> %s" % (t, slot))
     cvf = one("mp::SolutionChecker::CheckVars")
     chk = [c for c in cvf.walk() if c["k"] == "CXXMemberCallExpr" and c.get("callee", "").endswith("::CheckViol")]
     okv = len(chk) == 3
     if okv:
         for c in chk:
-            fa = nfacts(cvf, c)
-            if not any(t == "!aux||!chk.if_recomputed()" and pol is True for t, pol in fa):
+            fa = norm_facts(cvf, c, loop_conditions=False, all_locals=True)
+            # original variables always; auxiliary ones unless the check uses recomputed values:  !aux || !if_recomputed()
+            if not any(pol is True and "||" in t and "if_recomputed()" in t and "is_var_original(i)" in t and t.count("!") >= 1 for t, pol in fa):
                 okv = False
         intc = [c for c in chk if "sol_int_tol()" in render(c)]
         okv = okv and len(intc) == 1 and any("is_var_integer(i)" in render(cvf.nodes[cid]) and pol is True for cid, pol in cvf.cfg.facts_at(intc[0]))
